@@ -56,6 +56,53 @@ def _precedes_in_block(guard: ast.If, write_line: int) -> bool:
     return False
 
 
+def _units_length_checked(ctx, t):
+    """(all sinks checked?, [checking functions], first unchecked sink) for the places where the compiler freezes its
+    bytecode buffer (`bytes(self.bytecode)`): a sink is checked when its function compares len(self.bytecode) with a
+    bound of at most 65536 and raises a JSError-family error above it, before the sink."""
+    cached = getattr(ctx, "_units_checked", None)
+    if cached is not None:
+        return cached
+    comp = ctx.tree.class_named("Compiler")
+    checkers, unchecked = [], None
+    n_sinks = 0
+    for m in comp.methods.values():
+        sinks = [c for c in m.own_nodes() if isinstance(c, ast.Call) and norm(c.func) == "bytes" and c.args and norm(c.args[0]) == "self.bytecode"]
+        if not sinks:
+            continue
+        n_sinks += len(sinks)
+        ok = False
+        for i in m.own_nodes():
+            if not isinstance(i, ast.If):
+                continue
+            names = {x.id for x in ast.walk(i.test) if isinstance(x, ast.Name)}
+            lens = [a for a in m.own_nodes() if isinstance(a, ast.Assign) and isinstance(a.value, ast.Call) and norm(a.value) == "len(self.bytecode)" and isinstance(a.targets[0], ast.Name)]
+            about_len = "len(self.bytecode)" in norm(i.test) or any(a.targets[0].id in names for a in lens)
+            if not about_len or not isinstance(i.test, ast.Compare) or not isinstance(i.test.ops[0], (ast.Gt, ast.GtE)):
+                continue
+            bound = i.test.comparators[0]
+            val = _const_int(bound)
+            if val is None and isinstance(bound, ast.Attribute):
+                for st in comp.node.body:
+                    if isinstance(st, ast.Assign) and norm(st.targets[0]) == bound.attr:
+                        val = _const_int(st.value)
+            if val is None or val > 65536:
+                continue
+            for s_ in i.body:
+                for r in ast.walk(s_):
+                    if isinstance(r, ast.Raise) and r.exc is not None:
+                        cls = (norm(r.exc.func) if isinstance(r.exc, ast.Call) else norm(r.exc)).split(".")[-1]
+                        if "JSError" in t.exc_ancestors(m.module, cls) and all(i.lineno < s0.lineno for s0 in sinks):
+                            ok = True
+        if ok:
+            checkers.append(m.name)
+        elif unchecked is None:
+            unchecked = f"{m.name} (line {sinks[0].lineno})"
+    res = (bool(checkers) and unchecked is None and n_sinks > 0, checkers, unchecked)
+    ctx._units_checked = res
+    return res
+
+
 def rule_checked_encoding(ctx, rep, rid: str) -> None:
     rep.rule(rid, "every operand byte the compiler writes into the bytecode is range-checked against its field width (255 / 65535) before any masking, with a JSError-family refusal", floor=2)
     comp = ctx.tree.class_named("Compiler")
@@ -92,6 +139,12 @@ def rule_checked_encoding(ctx, rep, rid: str) -> None:
             g = _range_guard(m, var, wd, line, t)
             if g:
                 rep.ok(rid, key, {"guard": g, "writes": [short(e, 40) for e, _ in ws]})
+            elif wd == 2 and _units_length_checked(ctx, t)[0]:
+                # jump targets are positions inside the unit: a unit of at most 65536 bytes has none above 65535
+                rep.ok(rid, key, {"guard": "every code unit is refused above 65536 bytes when it is finished", "writes": [short(e, 40) for e, _ in ws], "finishers": _units_length_checked(ctx, t)[1]})
+            elif wd == 2 and _units_length_checked(ctx, t)[1]:
+                bad_site = _units_length_checked(ctx, t)[2]
+                rep.bad(rid, key, f"{m.name} writes `{var}` into a 16-bit field without a range check of its own, relying on the length check made when a code unit is finished ({', '.join(_units_length_checked(ctx, t)[1])}) - but {bad_site} turns the bytecode buffer into a code unit without that check: a unit built there may be longer than 65536 bytes, and its jump targets wrap silently", f"{m.module.rel}:{line}")
             else:
                 how = "masked with & 0xFF / >> 8" if wd == 2 else ("masked with & 0xFF" if any("&" in norm(w[0]) for w in ws) else "appended as one byte")
                 rep.bad(rid, key, f"{m.name} writes `{var}` into a {wd * 8}-bit field ({how}) without first comparing it with {CAPS[wd][0]} and refusing with a JSError: " + ("larger jump targets wrap silently" if wd == 2 else "operands above 255 are truncated or surface as a host ValueError from bytes()"), f"{m.module.rel}:{line}")
